@@ -318,6 +318,9 @@ func c15writes(env *core.Env, faulty bool) {
 	g := reg.NewGen(c, m, cfg)
 	h := reg.NewHandles()
 	n := c.Range("nops", 6, 30)
+	if env.Tier == "thorough" && c.Bool("deep", 1, 3) {
+		n = c.Range("nops.deep", 30, 120)
+	}
 	env.Sample("writes through the unifier: immutableTags=%v policy=%v member-faults=%v repos=%v", immutable, pol, faulty, cfg.Repos)
 	memModel := [2]*reg.Model{reg.NewModel(immutable), reg.NewModel(immutable)}
 	_ = memModel
